@@ -417,6 +417,18 @@ func (c *Ctx) randMDX(id string, choices []certChoice) mdEntityX {
 				b = bindingsPool[c.rng.Intn(4)]
 			}
 			ep := mdEndpoint{Binding: b, Location: fmt.Sprintf("https://sp.example.com/acs%d", c.rng.Intn(5)), Index: c.rng.Intn(4)}
+			// legal locations that a parse / print round trip would rewrite (scheme case, an empty fragment): "equal to that
+			// location" means the registered string
+			switch {
+			case c.chance(0.12):
+				ep.Location = "HTTPS" + strings.TrimPrefix(ep.Location, "https")
+				c.count("c06-acs-location-form", "upper-case-scheme")
+			case c.chance(0.12):
+				ep.Location += "#"
+				c.count("c06-acs-location-form", "empty-fragment")
+			default:
+				c.count("c06-acs-location-form", "plain")
+			}
 			if c.chance(0.3) {
 				x := c.chance(0.5)
 				ep.IsDefault = &x
